@@ -83,16 +83,19 @@ class P(Prop):
         (M, "TV.C10.states_returned_on_built_network", "on a built network with regular geometries the preparation of STATES for a whole track returns unless the index query itself raises"),
         (M, "TV.C10.states_returned_on_built_network_3d", "the same with altitudes (regularity of the planimetric geometries)"),
         (M, "TV.C10.states_returned_3d", "the same for STATES[i] on data with altitudes: whether the projection can raise is decided by the planimetric geometry alone"),
+        (M, "TV.C10.zero_length_edge_candidate", "a candidate edge whose vertices coincide (computeAbsCurv-made) is an ordinary candidate (fix 563eeba): nothing is raised; it yields a state exactly when the vertex is strictly within the radius, and that state is (the vertex, the edge number, 0, 0)"),
+        (M, "TV.C10.order_and_stamps_kept", "__mapOnNetwork on one track, every network / decoder / arguments and EVERY assignment of time stamps (reverse order, ties, none): the list of observations — order, positions, time stamps — is handed back as it was"),
+        (M, "TV.C10.time_stamps_never_read", "two tracks differing by their time stamps only get the same STATES; with a decoder that reads positions, feature names and obs_noise only, also the same hmm_inference, names, obs_noise column or the same exception: no chronological order is required, none is established"),
     ]
     partial = []
     open_statements = ["completeness of the candidates in terms of the search radius (no edge within the radius is missed) is not claimed by the property and does not hold in general: "
                        "__mapOnNetwork derives the search unit from the NUMBERS of cells (ceil(search_radius / min(csize, lsize))), not from the cell size; near_edge_is_candidate states "
                        "the hypothesis under which C08's completeness carries over",
                        "the decoder's choice among the candidates (which sound candidate is inferred) is C09's subject; here only that the inferred state is one of STATES[k]",
-                       "exceptions: the soundness theorems are about a call that returns; returns_on_regular_geometries says when it does (no kept vertical segment, no edge without a kept "
-                       "segment, candidates = existing edge numbers, in-range decoder). Outside: ZeroDivisionError of the projection on a vertical segment (finding D16, class "
-                       "vertical-segment-zerodiv), UnboundLocalError on a candidate edge all of whose vertices coincide (class zero-length-edge-unbound) — both mirrored by the models and "
-                       "compared —, AnalyticalFeatureError on a track without observation; that the index of a built network only answers numbers of existing "
+                       "exceptions: the soundness theorems are about a call that returns; returns_on_regular_geometries says when it does (no kept vertical segment, no edge with fewer than two "
+                       "vertices, candidates = existing edge numbers, in-range decoder). Outside: ZeroDivisionError of the projection on a vertical segment (finding D16, class "
+                       "vertical-segment-zerodiv), IndexError on a candidate edge with fewer than two vertices — mirrored by the models and "
+                       "compared —; a candidate edge all of whose vertices coincide is an ordinary candidate since fix 563eeba (zero_length_edge_candidate; former class zero-length-edge-unbound); AnalyticalFeatureError on a track without observation; that the index of a built network only answers numbers of existing "
                        "edges is proved here (candidates_are_edge_numbers); that the index QUERY itself does not raise (neighborhood on a built index) is C08's subject and stays a hypothesis "
                        "of states_returned_on_built_network",
                        "IEEE rounding: the theorems are over an ordered field with an exact square root; the float behaviour is sampled by the transfer check (tolerance 1e-9 relative)",
@@ -100,9 +103,11 @@ class P(Prop):
                        "theorems of Part IV state d0 + d1 = planimetric length of the stored geometry; Track.length() / Edge.weight is the 3D length (weight_is_3d_length) and differs on every "
                        "edge that is not level. The oracle accepts either reading, consistently (sum AND abscissa planimetric, or sum AND abscissa 3D). Outside the statement, noted: the "
                        "transition model (__tst_log -> Network.distanceBtwPts) subtracts the planimetric abscissa from the 3D Track.length() of the edge",
+                       "time stamps: the model's observations carry an opaque stamp that nothing reads (order_and_stamps_kept, time_stamps_never_read); that HMM.estimate itself is time-blind "
+                       "(Decoder.TimeBlind) is a hypothesis here — the decoder is C09's subject — and is sampled by the transfer check on tracks with tied / absent / decreasing / shuffled stamps",
                        "coordinates other than ENUCoords (GeoCoords / ECEFCoords networks: distance2DTo goes through a local ENU frame) are not modelled"]
     modelled = ("algo/mapping.py mapOnNetwork (bare track / collection / iterable, gps_noise, transition_cost, search_radius, debug, verbose), __mapOnNetwork (obs_noise column, search unit, "
-                "neighborhood call, candidate loop: projection on EDGES[getEdgeId(elem)].geom, d < search_radius, __distToNode from abs_curv; flag state; hmm_inference from the decoded "
+                "neighborhood call, the observations with their time stamps as opaque keys — never read, handed back in the order given —, candidate loop: projection on EDGES[getEdgeId(elem)].geom, d < search_radius, __distToNode from abs_curv; flag state; hmm_inference from the decoded "
                 "indices; created feature columns; positions untouched for mode 1), __distToNode, __projOnTrack; core/network.py Node, Edge, Network.addNode / addEdge (node table, EDGES, "
                 "__idx_edges, registration in an attached index), getEdgeId, getNumberOfEdges, __getitem__, bbox; algo/cinematics.py computeAbsCurv (ds + INTEGRATOR) on edge geometries; ON DATA WITH ALTITUDES (Model/MapMatchZ: the same "
                 "functions on ENUCoords(E, N, U)): ENUCoords.distance2DTo / distanceTo, algo/analytics.py ds, Track.length() (the edge weight of NetworkReader without weight column and of the "
@@ -112,7 +117,7 @@ class P(Prop):
                 "HMM-decoded states (given to the composed model as edge numbers, to the core model as indices); the core model is also run on the real candidate lists in their real order")
     rule = ("grid-like and random networks on an integer lattice and on two-decimal coordinates (oblique / horizontal / vertical, 2..4-vertex edges, arbitrary edge and node ids); REAL "
             "stream: networks as data delivers them — node ids shared by edges whose end vertices differ (tolerance-merged, 0.01..0.6), separate node tables, edges with up to 13 vertices, "
-            "repeated vertices, zero-length edges, loops, parallel edges, one-way edges, two components — built by hand (Node from the end positions), from a node table, through "
+            "repeated vertices, zero-length edges (all vertices coincide; 12 % of the real networks carry one, three in four of them AT a node of the network, where the observations around that node have it as a candidate — an ordinary candidate since fix 563eeba, judged like any other), loops, parallel edges, one-way edges, two components — built by hand (Node from the end positions), from a node table, through "
             "NetworkReader.readFromFile (CSV/WKT, string ids), or with the index attached before the last edges (addEdge registers them), integer or string ids; spatial index of several "
             "cell sizes and margins, tracks of 1..7 observations (a third of the real stream: 1..2) on / near / far from the network, exactly on nodes and vertices, outside the index "
             "extent, several radii and noise values; SESSION stream: on one network / index object, 1..3 calls of mapOnNetwork, the first on a TrackCollection of 2..3 tracks of different "
@@ -122,9 +127,13 @@ class P(Prop):
             "track of every call through its own hmm_inference column and measures on Edge.geom as read back from the network after the call; the network state after construction "
             "(geometries with altitudes, abs_curv columns, edge weights (3D cases), node table with altitudes, edge ends, grid) and per track STATES (as sets, and in the real order), hmm_inference, feature names, obs_noise column and "
             "positions (3D) are compared with the model's. ALTITUDES: 40 % of the cases of every stream (and the enumerated scope enum-z) "
-            "carry altitudes — hill (one altitude per planimetric position, lattice or two-decimal values 0..30), plateau (one non-zero altitude everywhere), mixed (some edges 2D: "
+            "carry altitudes (20 % of the TIMES stream) — hill (one altitude per planimetric position, lattice or two-decimal values 0..30), plateau (one non-zero altitude everywhere), mixed (some edges 2D: "
             "LINESTRING(x y, ...) next to LINESTRING(x y z, ...) in one file), obs (2D network, observations with altitudes), node tables with altitudes, observations with altitudes half "
-            "of the time; such cases run on Model/MapMatchZ (commands net3 / match3), the others on the 2D models. non-trivial = at least one observation within the radius of an edge")
+            "of the time; such cases run on Model/MapMatchZ (commands net3 / match3), the others on the 2D models. TIME STAMPS: the tracks of the streams above are stamped chronologically (10 s apart); the "
+            "TIMES stream (enumerated: 3 observations x every assignment of the stamps {0, 10, 20} s, + no time information; random: single tracks, a quarter of them LONG — 17..40 observations —, "
+            "and sessions; 20 % of the ordinary sessions too) carries stamps as logs, merged files and positions-only data deliver them: none at all (Obs(coords): all 01/01/1970), one stamp "
+            "everywhere, reverse chronological, shuffled, one step back, runs of equal stamps, sub-second stamps, stamped and unstamped observations mixed; the stamps are given to the composed model "
+            "(opaque keys, in the order of the track) and the stamps read back after the call, field by field (milliseconds included), are compared with the model's and with those read before the call. non-trivial = at least one observation within the radius of an edge")
     trusted = ["the decoded states (HMM.estimate) are an input of the model, captured from the real call (class attribute wrapped for the duration of a case, no source hook); the candidate "
                "lists the decoder receives for each track are read through the HMM's own state function at the entry of HMM.estimate; the real candidate order (SpatialIndex.neighborhood "
                "returns list(set)) is captured by wrapping the instance attribute and fed to the core model, the composed model computes the candidates itself (compared as sets)"]
@@ -151,7 +160,9 @@ class P(Prop):
     def exhaustive_scopes(self, tier):
         return ["one 2-vertex edge in each of the 8 lattice directions (and 3 lengths) x observations on a 7x7 lattice around it x radii {1, 2.5}",
                 "one 3-vertex edge WITH ALTITUDES (4 directions x 3 altitude profiles: hill, plateau, ramp) followed by a 2D edge x observations on a 9x9 "
-                "lattice around it (half of them with an altitude) x radii {1, 2.5}"]
+                "lattice around it (half of them with an altitude) x radii {1, 2.5}",
+                "a track of 3 observations next to a 2-edge network x every assignment of the time stamps {0, 10, 20} s to the observations (27: every order, every "
+                "tie pattern) + no time information + stamped / unstamped mixed"]
 
     def cases(self, rng, tier):
         out = []
@@ -192,7 +203,69 @@ class P(Prop):
         # sessions: collections of several tracks, several calls on the same objects, re-matched tracks
         for k in range(6000 if tier == "thorough" else 900):
             out.append(self.add_z(rng, self.random_session(rng, ["grid", "random", "decimal", "real"][k % 4])))
+        # TIME STAMPS as data delivers them: the property is stated for every track, not for chronologically stored ones.
+        # enumerated: 3 observations x every assignment of the stamps {0, 10, 20} s (all orders, all tie patterns) + no time information
+        tri = [{"id": 4, "s": 1, "t": 2, "g": [[0.0, 0.0], [4.0, 0.0]]}, {"id": 9, "s": 2, "t": 3, "g": [[4.0, 0.0], [6.0, 3.0]]}]
+        for ts in [[a, b, c] for a in (0, 10, 20) for b in (0, 10, 20) for c in (0, 10, 20)] + [[None, None, None], [None, 5, None]]:
+            out.append({"kind": "net", "stream": "enum-times", "edges": tri, "res": [1.0, 1.0], "margin": 0.3,
+                        "track": [[0.5, 0.5], [3.5, -0.25], [5.25, 1.0]], "times": ts, "radius": 2.0, "noise": 2.0})
+        # random: single tracks (a quarter of them LONG, 17..40 observations) and sessions whose tracks carry stamps that are
+        # tied / absent / decreasing / shuffled / stepping back once / sub-second
+        for k in range(3000 if tier == "thorough" else 500):
+            if k % 5 == 4:
+                c = self.random_session(rng, ["grid", "random", "decimal", "real"][(k // 5) % 4], timed=1.0, long=0.3)
+            else:
+                c = self.real_case(rng) if k % 5 == 3 else self.random_case(rng, ["grid", "random", "decimal"][k % 3])
+                if rng.random() < 0.25:
+                    xs = [p[0] for e in c["edges"] for p in e["g"]]
+                    c["track"] = self.long_track(rng, "decimal" if c["stream"] in ("decimal", "real") else c["stream"], self.live_edges(c["edges"]),
+                                                 c["radius"], max(xs) - min(xs))
+                c["times"] = self.gen_times(rng, len(c["track"]))
+                c["stream"] = "times-" + c["stream"]
+            out.append(self.add_z(rng, c, p=0.2))
         return out
+
+    TIME_MODES = ["none", "tied", "dec", "shuffle", "stepback", "pairs", "subsec", "mixed"]
+
+    def gen_times(self, rng, n, mode=None):
+        """time stamps (seconds since 1970; None = observation built without one) for a track of n observations, as logs,
+        merged files and positions-only data deliver them:
+          none     : no time information at all (`Obs(coords)`: every stamp is the default 01/01/1970 00:00:00)
+          tied     : one and the same stamp everywhere
+          dec      : stored in reverse chronological order
+          shuffle  : arbitrary order (distinct stamps)
+          stepback : chronological with one step back (two logs merged, a clock reset)
+          pairs    : 2 Hz data stamped to the second (runs of equal stamps, non-decreasing)
+          subsec   : chronological, sub-second stamps (the millisecond field is in use)
+          mixed    : some observations without time information among stamped ones"""
+        mode = mode or rng.choice(self.TIME_MODES)
+        base = rng.choice([0, 86400 * 365 * 30 + 3600 * 7, 1600000000])
+        inc = [base + rng.choice([1, 10, 60]) * i for i in range(n)]
+        if mode == "none":
+            return [None] * n
+        if mode == "tied":
+            return [base] * n
+        if mode == "dec":
+            return inc[::-1]
+        if mode == "shuffle":
+            rng.shuffle(inc)
+            return inc
+        if mode == "stepback":
+            j = rng.randrange(n)
+            return inc[:j] + [max(0, t - (inc[j] - inc[0]) - rng.choice([0, 5])) for t in inc[j:]]
+        if mode == "pairs":
+            return [base + i // rng.choice([2, 3]) for i in range(n)]
+        if mode == "subsec":
+            return [base + 0.25 * i for i in range(n)]
+        return [None if rng.random() < 0.4 else t for t in inc]
+
+    def long_track(self, rng, stream, edges, radius, ax, n=None):
+        """17..40 observations (a log at a high rate along the network): pieces of gen_track, end to end"""
+        n = n or rng.choice([17, 17, 18, 20, 24, 33, 40])
+        track = []
+        while len(track) < n:
+            track += self.gen_track(rng, stream, edges, radius, ax, home=[rng.choice(edges)] if rng.random() < 0.5 else None, avoid_vertical=True)
+        return track[:n]
 
     def add_z(self, rng, case, p=0.4):
         """altitudes for a case generated planimetrically (a share `p` of the cases): networks as a 3D source delivers them
@@ -375,12 +448,14 @@ class P(Prop):
             edges.append({"s": a, "t": b, "g": [[float(x), float(y)] for x, y in g], "o": rng.choice([0, 0, 0, 1, -1])})
         zero = None
         if rng.random() < 0.12:
-            # a zero-length edge (all its vertices coincide). Where it can become a candidate mapOnNetwork raises
-            # UnboundLocalError (class zero-length-edge-unbound); while that class is not a listed finding the edge is put
-            # where no observation comes (far corner), so that it still takes an edge number and a place in the index
+            # a zero-length edge (all its vertices coincide), at a node of the network: it is a candidate of the observations
+            # around that node like any other edge (since fix 563eeba: position = that vertex, both abscissas 0; before,
+            # proj_polyligne raised UnboundLocalError — former class zero-length-edge-unbound). One in four is put in a far
+            # corner instead, where no observation comes (it still takes an edge number and a place in the index).
             i = rng.choice(ids)
-            pos = list(nodes[i]) if "zero-length-edge-unbound" in self.listed else [-60.0, -60.0 - rng.randint(0, 5)]
-            zero = {"s": i if "zero-length-edge-unbound" in self.listed else 77, "t": 78, "g": [[float(pos[0]), float(pos[1])]] * rng.choice([2, 3]), "o": 0}
+            far = rng.random() < 0.25
+            pos = [-60.0, -60.0 - rng.randint(0, 5)] if far else list(nodes[i])
+            zero = {"s": 77 if far else i, "t": 78, "g": [[float(pos[0]), float(pos[1])]] * rng.choice([2, 3]), "o": 0}
             edges.insert(rng.randrange(len(edges) + 1), zero)
         eids = rng.sample(range(1, 90), len(edges))
         for e, i in zip(edges, eids):
@@ -404,12 +479,9 @@ class P(Prop):
         return case
 
     def live_edges(self, edges):
-        """the edges observations are generated around: those that have a length and — while the class
-        zero-length-edge-unbound is not a listed finding — are not next to a zero-length edge"""
-        zs = [e["g"][0] for e in edges if len({tuple(p) for p in e["g"]}) == 1]
+        """the edges observations are generated around: those that have a length (a zero-length edge sits at a node of
+        such an edge: the observations around that node have it among their candidates)"""
         live = [e for e in edges if len({tuple(p) for p in e["g"]}) > 1]
-        if zs and "zero-length-edge-unbound" not in self.listed:
-            live = [e for e in live if all(math.hypot(p[0] - z[0], p[1] - z[1]) > 30.0 for p in e["g"] for z in zs)] or live[:0]
         return live or [{"g": [[200.0, 200.0], [203.0, 204.0]]}]
 
     def gen_track(self, rng, stream, edges, radius, ax, home=None, avoid_vertical=False, short=False):
@@ -443,7 +515,7 @@ class P(Prop):
             track.append([float(p[0]), float(p[1])])
         return track
 
-    def random_session(self, rng, stream):
+    def random_session(self, rng, stream, timed=0.2, long=0.05):
         """several mapOnNetwork calls on the SAME network / index objects: collections of 2..3 tracks that are not
         co-located, tracks matched again in a later call (their obs_noise / hmm_* columns already exist), user
         features with those names, radii and noise changing from call to call"""
@@ -505,6 +577,15 @@ class P(Prop):
                 out[k] = base[k]
         if rng.random() < 0.3:
             out["warm"] = rng.choice([1, 2, 9])     # the module was used before, on another network, for a track of that many observations
+        if rng.random() < long:
+            k = rng.randrange(ntr)
+            tracks[k] = self.long_track(rng, stream, edges, base["radius"], ax)
+        if rng.random() < timed:
+            # time stamps that are not chronological / not distinct / absent, on some of the tracks (None = the default increasing ones)
+            out["times"] = [self.gen_times(rng, len(t)) if rng.random() < 0.7 else None for t in tracks]
+            if all(t is None for t in out["times"]):
+                out["times"][0] = self.gen_times(rng, len(tracks[0]))
+            out["stream"] = "session-times-" + base["stream"]
         return out
 
     @staticmethod
@@ -512,8 +593,29 @@ class P(Prop):
         """every case is run as a session; the single-track kinds are one call with a bare Track"""
         if case["kind"] == "session":
             return case
-        return {"tracks": [case["track"]], "pre": {},
-                "calls": [{"t": [0], "radius": case["radius"], "noise": case["noise"], "bare": True}]}
+        S = {"tracks": [case["track"]], "pre": {},
+             "calls": [{"t": [0], "radius": case["radius"], "noise": case["noise"], "bare": True}]}
+        if case.get("times") is not None:
+            S["times"] = [case["times"]]
+        return S
+
+    @staticmethod
+    def stamps(S, ti):
+        """the time stamps of track `ti` of a session: the case's own (`times`: per observation, seconds since 1970, or None =
+        the observation is built without time information, `Obs(coords)`), else strictly increasing ones (10 s apart)"""
+        every = S.get("times") or []
+        ts = every[ti] if ti < len(every) else None
+        n = len(S["tracks"][ti])
+        if ts is None:
+            return [1000 * (ti + 1) + 10 * i for i in range(n)]
+        return (list(ts) + [None] * n)[:n]
+
+    def mk_obs(self, q, ts):
+        T = self.tl
+        pos = T["E"](q[0], q[1], zof(q))
+        if ts is None:
+            return T["Obs"](pos)                     # positions only: the default time stamp 01/01/1970 00:00:00
+        return T["Obs"](pos, T["ObsTime"].readUnixTime(ts))
 
     def describe(self, case):
         orient = set()
@@ -549,8 +651,22 @@ class P(Prop):
                 "args": "".join(sorted(set("".join(("t" if "tc" in c else "") + ("d" if c.get("debug") else "") + ("v" if c.get("verbose") else "") +
                                                         ("p" if c.get("positional") else "") + ("l" if c.get("form") == "list" else "") + ("D" if c.get("defaults") else "") + ("i" if c.get("ints") else "") for c in S["calls"])))),
                 "obs": sum(len(t) for t in S["tracks"]), "calls": len(S["calls"]),
+                "times": self.times_tag(S), "long_track": max(len(t) for t in S["tracks"]) >= 17,
                 "max_tracks_per_call": max(len(c["t"]) for c in S["calls"]), "rematch": rematch, "pre_features": bool(S.get("pre")),
                 "orient": "".join(sorted(orient)), "multi_vertex": any(len(e["g"]) > 2 for e in case["edges"])}
+
+    def times_tag(self, S):
+        """how the time stamps of the tracks are ordered: chrono (strictly increasing), ties (non-decreasing with equal
+        stamps), unsorted (a decreasing step), with '+none' when observations without time information occur"""
+        tags = set()
+        for ti in range(len(S["tracks"])):
+            ts = self.stamps(S, ti)
+            v = [0 if t is None else t for t in ts]
+            tags.add("unsorted" if any(v[i + 1] < v[i] for i in range(len(v) - 1)) else
+                     "ties" if any(v[i + 1] == v[i] for i in range(len(v) - 1)) else "chrono")
+            if any(t is None for t in ts):
+                tags.add("+none")
+        return ",".join(sorted(tags))
 
     def nontrivial(self, case):
         # at least one observation within the radius of some edge (exact geometry)
@@ -668,6 +784,14 @@ class P(Prop):
             return ["?", repr(s)[:80]]
 
     @staticmethod
+    def stamp_row(t):
+        """every field of an ObsTime (its printed form drops the milliseconds / the zone depending on the print format)"""
+        try:
+            return [int(t.year), int(t.month), int(t.day), int(t.hour), int(t.min), int(t.sec), int(t.ms), int(getattr(t, "zone", 0))]
+        except Exception:
+            return ["?", str(t)]
+
+    @staticmethod
     def snap_track(o):
         noise = None
         if o.hasAnalyticalFeature("obs_noise"):
@@ -677,7 +801,7 @@ class P(Prop):
                 if isinstance(e, KeyboardInterrupt):
                     raise
         return {"pos": [[b.position.getX(), b.position.getY(), b.position.getZ()] for b in o],
-                "t": [str(b.timestamp) for b in o], "n": o.size(), "features": list(o.getListAnalyticalFeatures()), "noise": noise}
+                "t": [P.stamp_row(b.timestamp) for b in o], "n": o.size(), "features": list(o.getListAnalyticalFeatures()), "noise": noise}
 
     def impl(self, case):
         """runs the whole session on ONE network / index and the same Track objects; output: per call, per track"""
@@ -695,7 +819,7 @@ class P(Prop):
         net0 = self.net_state(net)
         tracks = []
         for ti, pts in enumerate(S["tracks"]):
-            trk = T["Track"]([T["Obs"](T["E"](q[0], q[1], zof(q)), T["ObsTime"].readUnixTime(1000 * (ti + 1) + 10 * i)) for i, q in enumerate(pts)])
+            trk = T["Track"]([self.mk_obs(q, ts) for q, ts in zip(pts, self.stamps(S, ti))])
             for name, val in sorted((S.get("pre") or {}).get(str(ti), {}).items()):
                 trk.createAnalyticalFeature(name, val)
             tracks.append(trk)
@@ -865,12 +989,22 @@ class P(Prop):
                     ch = "x"
                 else:
                     ch = ",".join(str(r[2]) for r in t["inf"]) or "_"
-                ts.append("%s~%s~%s~%s" % (names, noise, ";".join(pt(p) for p in pts) or "_", ch))
+                # the time stamps as the track carries them (any order, ties): one injective natural key per observation
+                tm = ",".join(str(self.stamp_key(r)) for r in b["t"]) or "_"
+                ts.append("%s~%s~%s~%s~%s" % (names, noise, ";".join(pt(p) for p in pts) or "_", ch, tm))
             if not ts:
                 continue
             one = bool(call.get("bare")) and len(call["t"]) == 1
             calls.append("%s:%s:%s:%s" % (fbits(call["radius"]), fbits(call["noise"]), "one" if one else "many", "/".join(ts)))
         return "C10.%s %s %d %s %s%s" % ("net3" if z3 else "net", "|".join(es), late, res, fbits(case["margin"]), "".join(" " + c for c in calls))
+
+    @staticmethod
+    def stamp_key(row):
+        """an ObsTime (row of stamp_row) as one natural number, injectively (the model's time stamps are opaque keys)"""
+        if len(row) != 8 or row[0] == "?" or any(v < 0 for v in row[:7]):
+            return 0
+        y, mo, d, h, mi, sec, ms = row[:7]
+        return (((((y * 13 + mo) * 32 + d) * 25 + h) * 61 + mi) * 61 + sec) * 1000 + ms
 
     def requests(self, case):
         key = json.dumps(case, sort_keys=True)
@@ -894,7 +1028,7 @@ class P(Prop):
             lines.append("C10.%s %s %s %s %s %s" % ("match3" if z3 else "match", fbits(S["calls"][ci]["radius"]), es, tr, cs, ix))
         return lines
 
-    ERR = {"zerodiv": "err:zerodiv", "unbound": "err:UnboundLocalError", "index": "err:index"}
+    ERR = {"zerodiv": "err:zerodiv", "index": "err:index", "overflow": "err:OverflowError"}
 
     @staticmethod
     def parse_states(tok):
@@ -916,7 +1050,7 @@ class P(Prop):
         inf = self.parse_states(r[3]) if r[3] != "_" else None
         return {"states": states, "inf": inf}
 
-    NERR = {"Ezerodiv": "err:zerodiv", "Eunbound": "err:UnboundLocalError", "Eindex": "err:index", "Etype": "err:type", "Eexit": "err:exit",
+    NERR = {"Ezerodiv": "err:zerodiv", "Eoverflow": "err:OverflowError", "Eindex": "err:index", "Etype": "err:type", "Eexit": "err:exit",
             "Enoindex": "err:AttributeError", "Eempty": "err:AnalyticalFeatureError"}
 
     def decode_net(self, reply, z3=False):
@@ -948,7 +1082,8 @@ class P(Prop):
                 ts.append({"states": [self.parse_states(x) for x in f[0].split("|")] if f[0] != "_" else [],
                            "inf": self.parse_states(f[1]) if f[1] != "_" else None,
                            "names": f[2].split(",") if f[2] != "_" else [], "noise": fl(f[3]),
-                           "pos": [p3(x) for x in f[4].split(";")] if f[4] != "_" else []})
+                           "pos": [p3(x) for x in f[4].split(";")] if f[4] != "_" else [],
+                           "times": ([int(v) for v in f[5].split(",")] if f[5] != "_" else []) if len(f) > 5 else None})
             calls.append(ts)
         return {"geoms": geoms, "curv": curvs, "weights": weights, "nodes": nodes, "ends": ends, "grid": grid, "calls": calls}
 
@@ -992,11 +1127,11 @@ class P(Prop):
                 where = "call %d, track %d (composed model): " % (ci, t["ti"])
                 if "err" in t or "err" in mt:
                     # which of two possible exceptions of the candidate loop comes first depends on the order of the candidates
-                    # (list(set) in Python, free): a vertical segment (zerodiv) and a zero-length edge (UnboundLocalError) among
+                    # (list(set) in Python, free): a vertical segment (zerodiv) and an edge with fewer than two vertices (IndexError) among
                     # the candidates of one observation may be met in either order; the core model, fed with the REAL order,
                     # compares the exact exception (compare_track)
-                    both = {t.get("err"), mt.get("err")} == {"err:zerodiv", "err:UnboundLocalError"}
-                    if t.get("err") != mt.get("err") and t.get("err") in ("err:zerodiv", "err:UnboundLocalError", "err:index") and not both:
+                    both = {t.get("err"), mt.get("err")} == {"err:zerodiv", "err:index"}
+                    if t.get("err") != mt.get("err") and t.get("err") in ("err:zerodiv", "err:index") and not both:
                         return where + "impl raised %s, model says %s" % (t.get("err"), mt.get("err", "no error"))
                     if "err" in mt and "err" not in t:
                         return where + "model raised %s, impl returned" % mt["err"]
@@ -1022,6 +1157,8 @@ class P(Prop):
                     return where + "obs_noise column: impl=%s model=%s" % (t["noise_after"], mt["noise"])
                 if [p[:3] for p in t["pos_after"]] != mt["pos"]:
                     return where + "positions after the call: impl=%s model=%s" % (t["pos_after"][:4], mt["pos"][:4])
+                if mt.get("times") is not None and [self.stamp_key(r) for r in t["t_after"]] != mt["times"]:
+                    return where + "time stamps after the call (in the order of the track): impl=%s model=%s" % (t["t_after"][:4], mt["times"][:4])
         return None
 
     def compare(self, case, impl_out, model_out):
@@ -1041,7 +1178,7 @@ class P(Prop):
 
     def compare_track(self, impl_out, model_out):
         if "err" in impl_out:
-            if impl_out["err"] in ("err:zerodiv", "err:UnboundLocalError"):
+            if impl_out["err"] == "err:zerodiv":
                 if model_out.get("err") != impl_out["err"]:
                     return "impl raised %s, model says %s" % (impl_out["err"], json.dumps(model_out)[:300])
                 return None
@@ -1137,11 +1274,13 @@ class P(Prop):
         if out["n_after"] != n or b["n"] != n:
             return "the track has %d observations after map-matching, %d before" % (out["n_after"], n)
         if out["pos_after"] != b["pos"]:
-            return "positions changed: before %s after %s" % (b["pos"][:4], out["pos_after"][:4])
+            k = [i for i in range(n) if out["pos_after"][i] != b["pos"][i]][0]
+            return "positions changed: observation %d was at %s before map-matching, is at %s after" % (k, b["pos"][k], out["pos_after"][k])
         if out["t_after"] != b["t"]:
-            return "timestamps changed"
-        if sorted(out["features"]) != sorted(set(b["features"] + ["obs_noise", "hmm_inference", "hmm_cost"])):
-            return "feature columns after map-matching: %s (before: %s)" % (out["features"], b["features"])
+            k = [i for i in range(n) if out["t_after"][i] != b["t"][i]][0]
+            return "timestamps changed: observation %d had the stamp %s before map-matching, has %s after" % (k, b["t"][k], out["t_after"][k])
+        # (which feature columns exist after the call is not part of the statement — a version that writes a further column
+        # still satisfies it —: the names are compared with the model's in compare_net, not judged here)
         if len(out["inf"]) != n:
             return "hmm_inference has %d entries for %d observations" % (len(out["inf"]), n)
         for k in range(n):
@@ -1206,14 +1345,6 @@ class P(Prop):
                     if x1 == x2 and y1 != y2 and q[0] == x1 and min(y1, y2) <= (y2 - y1) <= max(y1, y2):
                         return "vertical-segment-zerodiv"
             return None
-        if impl_out["err"] == "err:UnboundLocalError" and cand and cand[-1]:
-            # proj_polyligne skips every segment of a geometry all of whose vertices coincide and then reads xproj, which
-            # was never assigned: a zero-length edge among the candidates of the observation being processed
-            for elem in cand[-1]:
-                g = case["geoms"][elem] if 0 <= elem < len(case["geoms"]) else []
-                if len(g) >= 2 and all(abs(g[j][0] - g[j + 1][0]) + abs(g[j][1] - g[j + 1][1]) < 1e-16 for j in range(len(g) - 1)):
-                    return "zero-length-edge-unbound"
-            return None
         return None
 
     # ------------------------------------------------------------------ shrinking / search
@@ -1230,15 +1361,33 @@ class P(Prop):
                         yield dict(case, calls=calls[:k] + [dict(c, t=c["t"][:j] + c["t"][j + 1:])] + calls[k + 1:])
             if case.get("pre"):
                 yield dict(case, pre={})
+            times = case.get("times")
+            if times is not None:
+                yield {k: v for k, v in case.items() if k != "times"}          # chronological stamps
             for ti, t in enumerate(tracks):
                 if len(t) > 1:
                     for k in range(len(t)):
-                        yield dict(case, tracks=tracks[:ti] + [t[:k] + t[k + 1:]] + tracks[ti + 1:])
+                        c = dict(case, tracks=tracks[:ti] + [t[:k] + t[k + 1:]] + tracks[ti + 1:])
+                        if times is not None and ti < len(times) and times[ti] is not None:
+                            c["times"] = times[:ti] + [times[ti][:k] + times[ti][k + 1:]] + times[ti + 1:]
+                        yield c
         else:
             t = case["track"]
+            times = case.get("times")
+            if times is not None:
+                yield {k: v for k, v in case.items() if k != "times"}          # chronological stamps
+            if len(t) > 8:                                                      # long tracks: halves first
+                for a, b in ((0, len(t) // 2), (len(t) // 2, len(t))):
+                    c = dict(case, track=t[a:b])
+                    if times is not None:
+                        c["times"] = times[a:b]
+                    yield c
             if len(t) > 1:
                 for k in range(len(t)):
-                    yield dict(case, track=t[:k] + t[k + 1:])
+                    c = dict(case, track=t[:k] + t[k + 1:])
+                    if times is not None:
+                        c["times"] = times[:k] + times[k + 1:]
+                    yield c
         if has_z(case):
             flat = dict(case, edges=[dict(e, g=[q[:2] for q in e["g"]]) for e in es])
             if case.get("nodes"):
@@ -1272,7 +1421,11 @@ class P(Prop):
             for dx, dy in ((0.5, 0), (0, 0.5)):
                 yield dict(case, tracks=[[[p[0] + dx, p[1] + dy] + p[2:] for p in t] for t in case["tracks"]])
             yield self.lift(case, rng)
+            for mode in ("dec", "none"):            # the same session on tracks stored anti-chronologically / without time information
+                yield dict(case, times=[self.gen_times(rng, len(t), mode) for t in case["tracks"]])
             return
+        for mode in ("dec", "none", "shuffle"):
+            yield dict(case, times=self.gen_times(rng, len(case["track"]), mode))
         for dx, dy in ((0.5, 0), (0, 0.5), (-0.5, 0), (0, -0.5)):
             yield dict(case, track=[[p[0] + dx, p[1] + dy] + p[2:] for p in case["track"]])
         yield self.lift(case, rng)
